@@ -352,7 +352,16 @@ func (it *Interp) binop(op token.Token, a, b Value, ta, tbt types.Type) Value {
 					it.runtimePanic("integer divide by zero")
 				}
 			} else if x.S.K == SReal {
+				if it.cfg.NaNPoison && it.touchesPoison(y) {
+					return it.newPoison()
+				}
 				if it.decide(it.tb.Eq(y, it.tb.Zero(y.S))) {
+					if it.cfg.NaNPoison {
+						// the quotient is NaN/Inf natively. With nan_poison the value becomes a poison variable:
+						// computing with it is allowed, but the path is abandoned as outside the model as soon as
+						// a branch or an assertion depends on it (so nothing is ever concluded from its value).
+						return it.newPoison()
+					}
 					// Inf/NaN is not representable over the reals. The path stops as outside the model, but the
 					// witness (an input that makes the divisor zero) is replayed against the real code: if a
 					// harness assertion fails there (a NaN where the property promises a value), that is a
